@@ -36,3 +36,35 @@ func VerifC13_MaxPayloadTwice(n, rep, dt, ver1, rev1, ver2, rev2 int) {
 	verifAssert((e1 == nil) == (e2 == nil) && (e1 != nil || d1 == d2), "data-rate look-up: same answer from a used and a fresh band object")
 	verifReach("done")
 }
+
+// C12: RX1 channel index and RX1 frequency denote the same existing downlink channel also after AddChannel calls
+// with arbitrary frequencies (a frequency that is already in the plan included).
+func VerifC12_RX1AfterAdd(n, k int) {
+	b, in, _ := verifBand(n, 0, 0)
+	if !in.supportsExtraChannels {
+		verifReach("no-extra-channels")
+		return
+	}
+	for j := 0; j < k; j++ {
+		f := verifNondetU32("freq")
+		// an existing uplink frequency or any other one
+		if verifNondetBool("existing") {
+			f = in.uplinkChannels[0].Frequency
+		}
+		verifAssert(b.AddChannel(f, 0, 5) == nil, "AddChannel succeeds")
+	}
+	N := len(in.uplinkChannels)
+	verifAssert(len(in.downlinkChannels) == N, "every uplink channel has its downlink channel (same index)")
+	for i := 0; i < N; i++ {
+		idx, err := b.GetRX1ChannelIndexForUplinkChannelIndex(i)
+		verifAssert(err == nil, "RX1 channel index is defined for every uplink channel")
+		dl, err := b.GetDownlinkChannel(idx)
+		verifAssert(err == nil, "the RX1 channel index denotes an existing downlink channel")
+		up, err := b.GetUplinkChannel(i)
+		verifAssert(err == nil, "uplink channel exists")
+		f, err := b.GetRX1FrequencyForUplinkFrequency(up.Frequency)
+		verifAssert(err == nil, "RX1 frequency is defined for every uplink frequency")
+		verifAssert(f == dl.Frequency, "RX1 frequency from the uplink frequency == frequency of the RX1 channel from the index")
+	}
+	verifReach("done")
+}
